@@ -79,7 +79,7 @@ def c_fl(o):
 
 
 def c_case(j, o):
-    ta, pa, tb, pb = j
+    ta, pa, tb, pb = j[:4]
     cmp_ = "CExc" if (o["cmp"] and o["cmp"][0] == "exc") else "(CVal " + " ".join(cbool(x) for x in o["cmp"]) + ")"
     h = "None" if isinstance(o["hasheq"], list) else f"(Some {cbool(o['hasheq'])})"
     i = "None" if isinstance(o["int"], list) else f"(Some {cbig(o['int'])})"
@@ -185,17 +185,19 @@ def nontrivial(j):
 
 
 def size(j):
-    ta, pa, tb, pb = j
+    ta, pa, tb, pb = j[:4]
     return (len(str(ta[1])) + len(str(tb[1])) + abs(ta[2]) + abs(tb[2]), abs(pa) + abs(pb), json.dumps(j))
 
 
 def reproducer(j, part):
-    ta, pa, tb, pb = j
+    ta, pa, tb, pb = j[:4]
     expr = {"add": "a + b", "sub": "a - b", "mul": "a * b", "neg/abs": "-a, abs(a)", "scale": "a.scale(b.prefix), a.scale(), a * b.prefix",
             "scalar-operand": "a * b.number, a + b.number, b.number - a", "compare": "a < b, a <= b, a == b, a != b, a > b, a >= b",
             "hash": "a == b, hash(a) == hash(b)", "int": "int(a)", "float": "float(a).hex()"}[part]
+    hist = "" if len(j) < 5 or j[4] is None else (f" [operand a is reached through the history {j[4][0]} from {dstr(j[4][1])}*10^{j[4][2]}: "
+                                                    f"harness/impl/c14.py:mk_hist]")
     return (f"from decimal import Decimal as D; from hdl21.prefix import Prefix, Prefixed; "
-            f"a = Prefixed(number=D('{dstr(ta)}'), prefix=Prefix({pa})); b = Prefixed(number=D('{dstr(tb)}'), prefix=Prefix({pb})); print({expr})")
+            f"a = Prefixed(number=D('{dstr(ta)}'), prefix=Prefix({pa})); b = Prefixed(number=D('{dstr(tb)}'), prefix=Prefix({pb})); print({expr})" + hist)
 
 
 def float_oracle(t, p):
@@ -211,7 +213,8 @@ def float_oracle(t, p):
 
 def run_pairs(run, name, jobs, chunk=300):
     """run the implementation and the Coq evaluators on pair jobs; returns (outs, bad list of (index, code), diag dict)"""
-    wire = [[dstr(j[0]), j[1], dstr(j[2]), j[3]] for j in jobs]
+    wire = [[dstr(j[0]), j[1], dstr(j[2]), j[3]] + ([[j[4][0], dstr(j[4][1]), j[4][2]]] if len(j) > 4 and j[4] is not None else [])
+            for j in jobs]
     outs = core.run_worker_sharded("c14", wire, common=dict(kind="pair"))
     cases = [c_case(j, o) for j, o in zip(jobs, outs)]
     bad = core.coq_eval_cases("C14", name, IMPORTS, "pair_case", cases, "run_cases chk_pair", chunk=chunk)
@@ -239,7 +242,7 @@ def report(run, stream, jobs, outs, bad, diag):
         if hit:
             i = hit[0]
             j = jobs[i]
-            show = [dstr(j[0]), j[1], dstr(j[2]), j[3]]
+            show = [dstr(j[0]), j[1], dstr(j[2]), j[3]] + ([[j[4][0], dstr(j[4][1]), j[4][2]]] if len(j) > 4 and j[4] is not None else [])
             run.violation(f"C14:{part}:{json.dumps(show)}",
                           f"{part}: implementation violates the property on a={show[0]}*10^{show[1]}, b={show[2]}*10^{show[3]}: "
                           f"{json.dumps({k: v for k, v in outs[i].items() if k != 'intact'})[:400]}",
@@ -261,6 +264,9 @@ def run(run, tier, seed, replay=None):
 
     if replay is not None and replay.get("case"):
         j = [tuple(replay["case"][0]), replay["case"][1], tuple(replay["case"][2]), replay["case"][3]]
+        if len(replay["case"]) > 4 and replay["case"][4] is not None:
+            hh = replay["case"][4]
+            j.append([hh[0], tuple(hh[1]), hh[2]])
         outs, bad, diag = run_pairs(run, "replay", [j])
         run.stream("replay", 1, 1, rule="the replayed case")
         report(run, "replay", [j], outs, bad, diag)
@@ -301,6 +307,25 @@ def run(run, tier, seed, replay=None):
     report(run, "pairs", jobs, outs, bad, diag)
     run.sample(dict(stream="pairs", case=[dstr(jobs[7][0]), jobs[7][1], dstr(jobs[7][2]), jobs[7][3]], impl=outs[7]))
     all_jobs += jobs
+
+    # ------------------------------------------------------------------ stream histories: operand a is an object with a past
+    # (built as another value, hashed / compared / used as a dict key, then re-assigned or copied with an update).  What it
+    # denotes is its CURRENT value: every clause of the property (==, hash, order, arithmetic) is evaluated as for a fresh number.
+    HK = ["assign", "assign-prefix-first", "copy-update", "copy-then-assign", "deepcopy-update"]
+    rh = core.rng(seed, "C14", "histories")
+    hjobs = []
+    for k in range(240 if quick else 4000):
+        pa, pb, p0 = rh.choice(prefixes), rh.choice(prefixes), rh.choice(prefixes)
+        kind = ["equal", "equal", "equal", "tolerance", "random", "magnitude"][k % 6]
+        ta, tb = gen_pair(rh, kind, pa, pb, eps)
+        hjobs.append([ta, pa, tb, pb, [HK[k % len(HK)], rand_mantissa(rh), p0]])
+    outs, bad, diag = run_pairs(run, "histories", hjobs)
+    run.stream("histories", len(hjobs), len({json.dumps(j) for j in hjobs}),
+               kinds={h: sum(1 for j in hjobs if j[4][0] == h) for h in HK},
+               equal_valued_pairs=sum(1 for j in hjobs if dval(j[0]) * Fraction(10) ** j[1] == dval(j[2]) * Fraction(10) ** j[3]),
+               rule="operand a is reached by re-assigning fields of / copying-with-update an object that was hashed before; all count")
+    report(run, "histories", hjobs, outs, bad, diag)
+    run.sample(dict(stream="histories", case=[dstr(hjobs[0][0]), hjobs[0][1], dstr(hjobs[0][2]), hjobs[0][3], hjobs[0][4][0]], impl=outs[0]))
 
     # ------------------------------------------------------------------ stream conversions
     r = core.rng(seed, "C14", "conv")
